@@ -185,6 +185,10 @@ impl<'tcx> Cx<'tcx> {
                         }
                     }
                 }
+                // `&STATIC`: the address of a static item (MIR only shows an allocation id)
+                if let Some(sd) = c.check_static_ptr(self.tcx) {
+                    let _ = write!(s, ",\"static\":{}", js(&self.path(sd)));
+                }
                 if let mir::Const::Unevaluated(u, _) = c.const_ {
                     let _ = write!(s, ",\"def\":{}", js(&self.path(u.def)));
                     if u.promoted.is_some() {
